@@ -174,7 +174,7 @@ Fixpoint spec_reads (stream : bytes) (maxsize : nat) (rem : bytes) (ps : list by
   | [] => true
   | (NsSetMaxsize n, ob) :: r =>
       outcome_eqb (o_out ob) ONone && spec_reads stream n rem ps tmo clean_end r
-  | (WriteNs _, _) :: r => spec_reads stream maxsize rem ps tmo clean_end r
+  | (WriteNs _, _) :: r | (NsFlush, _) :: r => spec_reads stream maxsize rem ps tmo clean_end r
   | (ReadNs m, ob) :: r =>
       let out := o_out ob in
       let conserved rem' := bytes_eqb (o_buf ob ++ skipn (o_cnt ob) stream) rem' in
@@ -199,39 +199,52 @@ Fixpoint spec_reads (stream : bytes) (maxsize : nat) (rem : bytes) (ps : list by
         end
   end.
 
-(* Reference for a writer: what reaches the wire is the concatenation of the
-   frames of the accepted payloads; an oversized payload is refused and
-   nothing of it is sent. *)
-Fixpoint spec_writes (maxsize : nat) (outs : list (nsop * outcome)) : option bytes :=
-  match outs with
-  | [] => Some []
-  | (WriteNs p, out) :: r =>
-      if Nat.ltb maxsize (length p)
-      then if outcome_eqb out (OExn NetstringMessageTooLong) then spec_writes maxsize r else None
-      else if outcome_eqb out ONone
-           then option_map (app (frame p)) (spec_writes maxsize r) else None
-  | (NsSetMaxsize n, _) :: r => spec_writes n r
-  | (ReadNs _, _) :: r => spec_writes maxsize r
-  end.
-
-(* the payloads a writer history has put on the wire *)
-Fixpoint written (steps : list (nsop * step_obs)) : list bytes :=
+(* Reference for a writer: the wire followed by the send buffer is the
+   concatenation of the frames of the accepted payloads, after every call; a
+   payload is accepted unless it is oversized (refused with
+   NetstringMessageTooLong, nothing of it is buffered or sent); write_ns /
+   flush either complete (buffer empty) or are interrupted by the next
+   interruption of the sending network, in which case the frame stays accepted
+   (it is in the send buffer) and a later flush delivers the rest.
+   Returns the accepted bytes and the accepted payloads. *)
+Fixpoint spec_writes (maxsize : nat) (wire acc : bytes) (ps : list bytes) (pend : list exn)
+         (steps : list (nsop * step_obs)) : option (bytes * list bytes) :=
   match steps with
-  | [] => []
-  | (WriteNs p, ob) :: r => if outcome_eqb (o_out ob) ONone then p :: written r else written r
-  | _ :: r => written r
+  | [] => Some (acc, ps)
+  | (o, ob) :: r =>
+      let out := o_out ob in
+      let conserved acc' := bytes_eqb (firstn (o_cnt ob) wire ++ o_buf ob) acc'
+                            && Nat.leb (o_cnt ob) (length wire) in
+      (* completed (nothing left in the buffer) or interrupted by the network *)
+      let finish acc' ps' :=
+        if outcome_eqb out ONone
+        then if conserved acc' && is_nil (o_buf ob) then spec_writes maxsize wire acc' ps' pend r else None
+        else if is_interrupt out
+             then match next_intr out pend with
+                  | Some t => if conserved acc' then spec_writes maxsize wire acc' ps' t r else None
+                  | None => None
+                  end
+             else None in
+      match o with
+      | WriteNs p =>
+          if Nat.ltb maxsize (length p)
+          then if outcome_eqb out (OExn NetstringMessageTooLong) && conserved acc
+               then spec_writes maxsize wire acc ps pend r else None
+          else finish (acc ++ frame p) (ps ++ [p])
+      | NsFlush => finish acc ps
+      | NsSetMaxsize n => if outcome_eqb out ONone then spec_writes n wire acc ps pend r else None
+      | ReadNs _ => None
+      end
   end.
-
-Definition strip (steps : list (nsop * step_obs)) : list (nsop * outcome) :=
-  map (fun x => (fst x, o_out (snd x))) steps.
 
 (* a writer history and a reader history over the stream the writer produced
    (followed by [junk], which the writer did not produce) *)
-Definition spec_ns_holds (wmax : nat) (wsteps : list (nsop * step_obs)) (wwire : bytes)
+Definition spec_ns_holds (wmax : nat) (wpend : list exn) (wsteps : list (nsop * step_obs)) (wwire : bytes)
            (rmax : nat) (stream junk : bytes) (tmo : list exn) (rsteps : list (nsop * step_obs)) : bool :=
-  match spec_writes wmax (strip wsteps) with
-  | Some w => bytes_eqb w wwire
+  match spec_writes wmax wwire [] [] wpend wsteps with
+  | Some (acc, ps) =>
+      (* the writer ended with everything flushed: the wire is the frames of the accepted payloads *)
+      bytes_eqb acc wwire && bytes_eqb stream (wwire ++ junk) &&
+      spec_reads stream rmax stream ps tmo (is_nil junk) rsteps
   | None => false
-  end &&
-  bytes_eqb stream (wwire ++ junk) &&
-  spec_reads stream rmax stream (written wsteps) tmo (is_nil junk) rsteps.
+  end.
